@@ -187,7 +187,7 @@ func clCollectorGuard(c *Ctx) {
 		recorded := false
 		for _, in := range fi.Instrs {
 			if k, on := atomicOnField(in, fLast); on && k == "Store" {
-				val := callOf(in).Args[1]
+				val := atomicArgs(in)[1]
 				if sameSnap(val) && (fi.Dominates(in, s) || fi.MustFollow(s, func(x ssa.Instruction) bool { return x == in })) {
 					recorded = true
 				}
@@ -239,7 +239,7 @@ func clGCTryLock(c *Ctx) {
 				return false
 			}
 			k, on := atomicOnField(call, fRun)
-			return on && k == "CAS" && isConstInt(0)(call.Call.Args[1]) && isConstInt(1)(call.Call.Args[2])
+			return on && k == "CAS" && isConstInt(0)(atomicArgs(call)[1]) && isConstInt(1)(atomicArgs(call)[2])
 		})
 		c.Check(held, fn, s, "collectDead under isGCRunning try-lock", "the in-order collector can run concurrently with itself (two collectors could release the same snapshot twice or out of order)")
 		released := fi.MustFollow(s, func(x ssa.Instruction) bool {
@@ -247,7 +247,7 @@ func clGCTryLock(c *Ctx) {
 			if !on {
 				return false
 			}
-			args := callOf(x).Args
+			args := atomicArgs(x)
 			return (k == "CAS" && isConstInt(0)(args[2])) || (k == "Store" && isConstInt(0)(args[1]))
 		})
 		c.Check(released, fn, s, "isGCRunning released after collectDead", "a path leaves GC holding the collector flag: no later snapshot is ever collected")
@@ -271,7 +271,7 @@ func clSnapshotClose(c *Ctx) {
 	var dec *ssa.Call
 	for _, in := range fi.Instrs {
 		if k, on := atomicOnField(in, fRef); on && k == "Add" {
-			if n, ok := constInt(callOf(in).Args[1]); ok && n == -1 {
+			if n, ok := constInt(atomicArgs(in)[1]); ok && n == -1 {
 				if dec != nil {
 					c.Check(false, fn, in, "single decrement", "Close decrements the reference count more than once")
 				}
@@ -493,7 +493,7 @@ func clStitch(c *Ctx) {
 		if !on || k != "Add" {
 			return false
 		}
-		f, b := loadedField(callOf(in).Args[1])
+		f, b := loadedField(atomicArgs(in)[1])
 		return f == fCount && onW(b)
 	}, "a writer's item delta is not added to the global count on some path: Count() of the snapshot is wrong")
 	effect("count reset to zero", func(in ssa.Instruction) bool {
@@ -735,7 +735,7 @@ func clDeleteNodeWinner(c *Ctx) {
 	// the CAS: 0 -> current epoch
 	for _, in := range fi.Instrs {
 		if k, on := atomicOnField(in, fDead); on && k == "CAS" {
-			args := callOf(in).Args
+			args := atomicArgs(in)
 			newv, ok := strip(args[2]).(*ssa.Call)
 			c.Check(isConstInt(0)(args[1]) && ok && p.CallsAny(newv, getCurr), fn, in, "deadSn CAS is 0 -> GetCurrSn()",
 				"the delete stamp is not installed by CompareAndSwap(&deadSn, 0, currSn): a dead item can be revived or re-stamped")
